@@ -7,6 +7,7 @@ from ..core.analysis import Analysis, facts
 from ..core.astutil import enclosing_trys, handler_catches
 from ..core.cfg import decompose_guard
 from ..core.forms import canon, srcinfo
+from ..core.report import AnalysisError
 from ..core.pyrepo import Repo, calls_in, dotted, norm_stmt
 from ..oracles import linux as O
 from .c06 import collect
@@ -39,51 +40,45 @@ def run(ctx):
     I = Interp(repo, A)
 
     # ------------------------------------------------------------------- R1
-    ctx.rule("C14.R1", "flag table: a dict subscripted by `flags & MASK` has a key "
-             "for every value the mask can produce; (access mode, O_APPEND) -> mode "
-             "string is r, w, a, r+, a+ as documented", floor=9)
+    ctx.rule("C14.R1", "flag table, exhaustively: for every access mode 0..3, with and "
+             "without O_APPEND and unrelated flag bits, file_flags_to_mode() evaluates "
+             "(no KeyError) to the documented mode string r, w, a, r+, a+", floor=16)
     ff = repo.func(pm, "file_flags_to_mode")
-    subs = [n for n in ast.walk(ff.node) if isinstance(n, ast.Subscript)
-            and isinstance(n.slice, ast.BinOp) and isinstance(n.slice.op, ast.BitAnd)]
-    ctx.require(subs, "file_flags_to_mode: the masked table lookup vanished")
-    for sub in subs:
-        mask = const_int(sub.slice.right)
-        if mask is None:
-            mask = const_int(sub.slice.left)
-        tbl = sub.value if isinstance(sub.value, ast.Dict) else None
-        name = dotted(sub.value)
-        for st in ast.walk(ff.node):
-            if name and isinstance(st, ast.Assign) and dotted(st.targets[0]) == name \
-                    and isinstance(st.value, ast.Dict):
-                tbl = st.value
-        ctx.require(mask is not None and tbl is not None,
-                    "file_flags_to_mode: mask or table not a literal")
-        keys = {const_int(k) for k in tbl.keys}
-        need = {v for v in range(mask + 1) if v & mask == v}
-        for v in sorted(need):
-            key = f"mask-value:{v}"
-            if v in keys:
-                ctx.ok("C14.R1", key, sample={"flags & %d" % mask: v, "handled": True})
-            else:
-                ctx.fail("C14.R1", key, ff.file, sub.lineno, ff.qual,
-                         f"`{norm_stmt(sub)}`: the mask {mask} can yield {v} but the table "
-                         f"has keys {sorted(k for k in keys if k is not None)}: a "
-                         f"descriptor opened with access mode {v} makes open_files() "
-                         f"raise KeyError for a live process")
-    want = {(0, 0): "r", (1, 0): "w", (2, 0): "r+", (0, 1): "r", (1, 1): "a", (2, 1): "a+"}
-    extra = {0o100000: "O_LARGEFILE", 0o2000000: "O_CLOEXEC", 64: "O_CREAT", 512: "O_TRUNC"}
-    for (acc, app), w in want.items():
-        for ex in (0, 0o2100000 | 64 | 512):
-            fl = acc | (1024 if app else 0) | ex
-            got = I.call_function(ff, [("const", fl)])
-            key = f"mode:{acc}:{'append' if app else 'plain'}:{'extra' if ex else 'bare'}"
-            if got == ("const", w):
-                ctx.ok("C14.R1", key, nontrivial=(ex == 0),
-                       sample={"flags": oct(fl), "mode": w} if ex == 0 else None)
-            else:
-                ctx.fail("C14.R1", key, ff.file, ff.node.lineno, ff.qual,
-                         f"flags {oct(fl)} (access {acc}, append={bool(app)}) give mode "
-                         f"{pretty(got)}, documented {w!r}")
+    # exhaustive over the finite domain: access mode 0..3 (open(2) accepts 3 on
+    # Linux) x O_APPEND x other flag bits; the function is evaluated on each value
+    from ..core import minieval as ME
+    consts = dict(OS_CONSTS)
+    want = {0: ("r", "r"), 1: ("w", "a"), 2: ("r+", "a+"), 3: ("r+", "a+")}
+    for acc, (plain, appended) in want.items():
+        for app in (0, 1):
+            for ex in (0, 0o2100000 | 64 | 512):
+                fl = acc | (1024 if app else 0) | ex
+                w = appended if app else plain
+                key = f"mode:{acc}:{'append' if app else 'plain'}:{'extra' if ex else 'bare'}"
+                try:
+                    got = ME.call_function(ff.node, [fl], consts)
+                    err = None
+                except ME.Raised as e_:
+                    got, err = None, e_.name
+                except ME.Outside:
+                    t_ = I.call_function(ff, [("const", fl)])
+                    if t_ and t_[0] == "const":
+                        got, err = t_[1], None
+                    else:
+                        raise AnalysisError(
+                            f"file_flags_to_mode cannot be evaluated for flags {oct(fl)}")
+                if err is None and got == w:
+                    ctx.ok("C14.R1", key, nontrivial=(ex == 0),
+                           sample={"flags": oct(fl), "mode": w} if ex == 0 else None)
+                elif err is not None:
+                    ctx.fail("C14.R1", key, ff.file, ff.node.lineno, ff.qual,
+                             f"flags {oct(fl)} (access mode {acc}) raise {err}: a descriptor "
+                             f"opened with access mode {acc} makes open_files() fail for a "
+                             f"live process")
+                else:
+                    ctx.fail("C14.R1", key, ff.file, ff.node.lineno, ff.qual,
+                             f"flags {oct(fl)} (access {acc}, append={bool(app)}) give mode "
+                             f"{got!r}, documented {w!r}")
 
     # ------------------------------------------------------------------- R2
     ctx.rule("C14.R2", "filter: a descriptor is listed only if its target is an "
